@@ -12,7 +12,7 @@
 (***************************************************************************)
 EXTENDS Config, Json
 
-CONSTANTS Kinds, MaxToks, Emit
+CONSTANTS Kinds, MaxToks, NumMaxToks, Emit
 VARIABLES kind, toks
 vars == <<kind, toks>>
 
@@ -67,18 +67,89 @@ AliasOf(ts, n) ==
   IN IF hit = <<>> THEN NoVal ELSE AliasLine(hit[1])[2]
 AliasExpect(ts) == [n \in AliasNames |-> AliasOf(ts, n)]
 
+(***************************************************************************)
+(* Numeric extremes of the setters (ConfigNum.tla).  Three more kinds of   *)
+(* text, whose tokens are GENERATED from the numerals and whose outcome is *)
+(* COMPUTED from the rules:                                                *)
+(*   csvnum   server lists: every nameserver form that carries a port x    *)
+(*            every port numeral (token "uri4:123456")                     *)
+(*   scope    server lists: link-local forms x interface names of every    *)
+(*            length class (token "uri%qqqq...")                           *)
+(*   sortnum  sortlist strings: address family x prefix numeral ("v4/033") *)
+(* "ctx" is an ordinary valid token.  A token whose rule is "refused"      *)
+(* makes the call fail and leave the channel unchanged, or (lenient        *)
+(* parser) is skipped; a "..._or_refused" token may go either way, so a    *)
+(* text has a SET of allowed outcomes (Alts).                              *)
+(***************************************************************************)
+NumKinds == {"csvnum", "scope", "sortnum"}
+
+CsvNumPairs == NsForms \X PortNums
+CsvNumName(f, n) == f \o ":" \o NumText(n)
+CsvNumToks == {CsvNumName(p[1], p[2]) : p \in CsvNumPairs} \cup {"ctx"}
+CsvNumTab == [t \in CsvNumToks \ {"ctx"} |-> CHOOSE p \in CsvNumPairs : CsvNumName(p[1], p[2]) = t]
+
+ScopeForms == {"br", "bare", "uri"}
+ScopeAddr(f) == CASE f = "br" -> "fe80::1" [] f = "bare" -> "fe80::2" [] f = "uri" -> "fe80::3"
+ScopeText(f, nm) == CASE f = "br" -> "[fe80::1]:53%" \o nm [] f = "bare" -> "fe80::2%" \o nm
+                      [] f = "uri" -> "dns://[fe80::3%" \o nm \o "]"
+\* an interface id is a known name or "q*<k>" = the unknown name of k characters
+ScopeIdOfLen(k) == "q*" \o ToString(k)
+ScopeIds == KnownIfaces \cup {ScopeIdOfLen(k) : k \in ScopeLens}
+ScopeIface(id) == IF id \in KnownIfaces THEN id ELSE UnknownIface(CHOOSE k \in ScopeLens : ScopeIdOfLen(k) = id)
+ScopePairs == ScopeForms \X ScopeIds
+ScopeName(f, id) == f \o "%" \o id
+ScopeToks == {ScopeName(p[1], p[2]) : p \in ScopePairs} \cup {"ctx"}
+ScopeTab == [t \in ScopeToks \ {"ctx"} |-> CHOOSE p \in ScopePairs : ScopeName(p[1], p[2]) = t]
+
+SortNumAll == UNION {{<<f, n>> : n \in MaskNums(f)} : f \in SortFams}
+SortNumTokName(f, n) == f \o "/" \o NumText(n)
+SortNumToks == {SortNumTokName(p[1], p[2]) : p \in SortNumAll} \cup {"ctx"}
+SortNumTokTab == [t \in SortNumToks \ {"ctx"} |-> CHOOSE p \in SortNumAll : SortNumTokName(p[1], p[2]) = t]
+
+NumRule(k, t) ==
+  IF t = "ctx" THEN "value"
+  ELSE CASE k = "csvnum"  -> PortRule(CsvNumTab[t][2])
+         [] k = "scope"   -> ScopeRule(ScopeIface(ScopeTab[t][2]))
+         [] k = "sortnum" -> MaskRule(SortNumTokTab[t][1], SortNumTokTab[t][2])
+\* the concrete text of a token
+NumTokText(k, t) ==
+  CASE k = "csvnum"  -> IF t = "ctx" THEN "10.0.1.9" ELSE NsFormText(CsvNumTab[t][1], NumText(CsvNumTab[t][2]))
+    [] k = "scope"   -> IF t = "ctx" THEN "10.0.1.9" ELSE ScopeText(ScopeTab[t][1], ScopeIface(ScopeTab[t][2]))
+    [] k = "sortnum" -> IF t = "ctx" THEN "11.0.0.0/8"
+                        ELSE SortNumAddr(SortNumTokTab[t][1]) \o "/" \o NumText(SortNumTokTab[t][2])
+\* what an accepted token contributes (server descriptor / sortlist entry as it reads back)
+NumTokEntry(k, t) ==
+  CASE k = "csvnum"  -> IF t = "ctx" THEN Srv("10.0.1.9", 0, 0, "") ELSE NsFormDesc(CsvNumTab[t][1], CsvNumTab[t][2].v)
+    [] k = "scope"   -> IF t = "ctx" THEN Srv("10.0.1.9", 0, 0, "") ELSE Srv(ScopeAddr(ScopeTab[t][1]), 0, 0, ScopeIface(ScopeTab[t][2]))
+    [] k = "sortnum" -> IF t = "ctx" THEN "11.0.0.0/8" ELSE SortNumEntry(SortNumTokTab[t][1], SortNumTokTab[t][2])
+
+\* the tokens at the positions in keep, in order
+SubSeqAt(ts, keep) == LET ix  == [j \in 1..Len(ts) |-> <<j, ts[j]>>]
+                          sel == SelectSeq(ix, LAMBDA p : p[1] \in keep)
+                      IN [j \in 1..Len(sel) |-> sel[j][2]]
+NumResult(k, ts) == LET es == [j \in 1..Len(ts) |-> NumTokEntry(k, ts[j])]
+                    IN IF k = "sortnum" THEN es ELSE Resolve(es, 0, 0)
+\* allowed outcomes: refused = some token is (taken as) refused: an error and no change, or the others only
+NumAlts(k, ts) ==
+  LET idx == 1..Len(ts)
+      R == {j \in idx : NumRule(k, ts[j]) = "refused"}
+      E == {j \in idx : NumRule(k, ts[j]) \in {"value_or_refused", "default_or_refused"}}
+  IN {[refused |-> (R \cup D) # {}, result |-> NumResult(k, SubSeqAt(ts, idx \ (R \cup D)))] : D \in SUBSET E}
+
 Alphabet(k) == CASE k = "sortlist" -> SortToks [] k = "csv" -> CsvToks [] k = "hosts" -> HostToks
                  [] k = "aliases" -> AliasToks
+                 [] k = "csvnum" -> CsvNumToks [] k = "scope" -> ScopeToks [] k = "sortnum" -> SortNumToks
 JunkOf(k) == CASE k = "sortlist" -> SortBad [] k = "csv" -> CsvBad [] k = "hosts" -> HostJunk [] k = "aliases" -> AliasJunk
+               [] k \in NumKinds -> {t \in Alphabet(k) : NumRule(k, t) = "refused"}
 Clean(k, ts) == SelectSeq(ts, LAMBDA t : t \notin JunkOf(k))
 
 Init == kind \in Kinds /\ toks = <<>>
-Next == /\ Len(toks) < MaxToks
+Next == /\ Len(toks) < (IF kind \in NumKinds THEN NumMaxToks ELSE MaxToks)
         /\ \E t \in Alphabet(kind) : toks' = Append(toks, t)
         /\ UNCHANGED kind
 Spec == Init /\ [][Next]_vars
 
-AllKinds == {"sortlist", "csv", "hosts", "aliases"}
+AllKinds == {"sortlist", "csv", "hosts", "aliases"} \cup NumKinds
 
 \* junk lines of the two files are invisible; malformed tokens never contribute an entry
 InvFilesLineIndependent ==
@@ -90,8 +161,31 @@ InvSettersInRange ==
                      /\ \A k \in 1..Len(CsvExpect(toks).servers) :
                           LET s == CsvExpect(toks).servers[k] IN s.u \in 1..65535 /\ s.t \in 1..65535
 
+\* numeric kinds: a refused numeral never contributes an entry (the outcomes are those of the text without the
+\* refused tokens); every port of every allowed outcome is a port, every prefix length fits the family
+InvNumInRange ==
+  kind \in NumKinds =>
+    /\ {a.result : a \in NumAlts(kind, toks)} = {a.result : a \in NumAlts(kind, Clean(kind, toks))}
+    /\ \A a \in NumAlts(kind, toks) :
+         /\ kind # "sortnum" => \A j \in 1..Len(a.result) :
+                                  /\ a.result[j].u \in 1..MaxPort /\ a.result[j].t \in 1..MaxPort
+                                  /\ IsLinkLocal(a.result[j].a) => Len(a.result[j].i) \in 1..MaxIface
+         /\ a.refused = FALSE => Len(a.result) > 0 \/ toks = <<>>
+
+\* the address a token is about (to name the token that an observation does not agree with)
+NumTokAddr(k, t) ==
+  IF t = "ctx" THEN (IF k = "sortnum" THEN "11.0.0.0" ELSE "10.0.1.9")
+  ELSE CASE k = "csvnum" -> NsFormAddr(CsvNumTab[t][1]) [] k = "scope" -> ScopeAddr(ScopeTab[t][1])
+         [] k = "sortnum" -> SortNumAddr(SortNumTokTab[t][1])
+
+EmitNum == PrintT(ToJson([kind |-> "c15s", what |-> kind, toks |-> toks,
+                          texts |-> [j \in 1..Len(toks) |-> NumTokText(kind, toks[j])],
+                          rules |-> [j \in 1..Len(toks) |-> NumRule(kind, toks[j])],
+                          addrs |-> [j \in 1..Len(toks) |-> NumTokAddr(kind, toks[j])],
+                          alts |-> NumAlts(kind, toks)]))
+
 EmitScenario ==
-  Emit => PrintT(ToJson([kind |-> "c15s", what |-> kind, toks |-> toks, clean |-> Clean(kind, toks),
+  Emit => IF kind \in NumKinds THEN EmitNum ELSE PrintT(ToJson([kind |-> "c15s", what |-> kind, toks |-> toks, clean |-> Clean(kind, toks),
                          expect |-> CASE kind = "sortlist" -> SortExpect(toks) [] kind = "csv" -> CsvExpect(toks)
                                       [] kind = "hosts" -> HostExpect(toks) [] kind = "aliases" -> AliasExpect(toks)]))
 =============================================================================
